@@ -184,6 +184,7 @@ static void check_after_reinit(int old_pair0, int old_pair1, int old_notify0)
 		VP_ASSERT(vp_kep[0].reg[fd].present == vp_k_parent_snap[0][fd].present && vp_kep[0].reg[fd].events == vp_k_parent_snap[0][fd].events,
 		    "C11: the parent's interest list is unchanged by the child's event_reinit");
 	VP_ASSERT(vp_k_ctl_badfd == 0, "C11: no epoll_ctl on a closed epfd/fd");
+	VP_ASSERT(!(vp_kf[old_epfd].open && vp_kf[old_epfd].shared), "C11: the child closed its copy of the parent's epoll descriptor");
 #ifndef VP_CHANGELIST
 	for (fd = 0; fd < 2; fd++) {
 		short want = want_of(fd);
